@@ -48,6 +48,11 @@ class RemoveFutureImports(SimpleCodemod):
                     if name.name.value not in DEPRECATED_NAMES
                 ]
                 self.add_change(original_node, self.change_description)
+                if updated_names and not updated_node.lpar:
+                    # without parentheses the list must not end in a comma
+                    updated_names[-1] = updated_names[-1].with_changes(
+                        comma=cst.MaybeSentinel.DEFAULT
+                    )
                 return (
                     updated_node.with_changes(names=updated_names)
                     if updated_names
